@@ -7,16 +7,16 @@ S = "round 2: MISSED by the unmodified check; obligation added / extended afterw
 O = "round 2: MISSED; outside what the technique reaches here (see DESIGN.md section 8)"
 TABLE = {
     "C01-1": ("C01", "parameter_keywords", C), "C01-2": ("C01", "body_strategy_cache", C), "C02-1": ("C02", "output_filter", A), "C02-2": ("C02", "body_strategy_cache", A),
-    "C03-1": ("C03", "positive_number_multiple", B), "C03-2": ("C03", "C03_cases", A), "C04-1": ("C04", "definition_selection", A), "C04-2": ("C04", "nullable_twice", A),
+    "C03-1": ("C03", "positive_number_multiple", B), "C03-2": ("C03", "_cases", A), "C04-1": ("C04", "definition_selection", A), "C04-2": ("C04", "nullable_twice", A),
     "C05-1": ("C05", "plan", A), "C05-2": ("C05", "unit_consumer", A), "C06-1": ("C06", "base_path_follows", A), "C06-2": ("C06", "primitive_roundtrip", A),
     "C07-1": ("C07", "derived_schemas", A), "C07-2": ("C07", "cli_into", A), "C08-1": ("C08", "path_level_isolation", A), "C08-2": ("C08", "lookup_agreement", A),
     "C09-1": ("C09", "failure_data_source", A), "C09-2": ("C09", "request_data_sanitize_switch", A), "C10-1": ("C10", "pointer_rfc", B), "C10-2": ("C10", "status_tables", A),
     "C11-1": ("C11", "plan", A), "C11-2": ("C11", "unit_consumer", A), "C12-1": ("C12", "unique_inputs", A), "C12-2": ("C12", "unit_consumer_ctrl_c", A),
     "C14-1": ("C14", "token_cache", A), "C14-2": ("C14", "stateful_override", A), "C15-1": ("C15", "url_sanitized", A), "C15-2": ("C15", "customised_config", A),
     "C16-1": ("C16", "vcr_header_value", A), "C16-2": ("C16", "cassette_handler", A), "C17-1": ("C17", "inner_examples", A), "C17-2": ("C17", "placements", A),
-    "C18-1": ("C18", "use_after_free_2", C), "C18-2": ("C18", "use_after_free_2", C), "C19-1": ("C19", "hook_history_2", C), "C19-2": ("C19", "hook_history_2", B),
+    "C18-1": ("C18", "use_after_free_2", C), "C18-2": ("C18", "use_after_free_2", C), "C19-1": ("C19", "hook_history_2", C), "C19-2": ("C19", "auth_test_scope", B),
     "C20-1": ("C20", "generation_arguments", A), "C20-2": ("C20", "selection_counts", A),
-    "R2-C01-1": ("C01", "C01_convert.convert", S), "R2-C01-2": ("C08", "merged_parameters", S), "R2-C02-1": ("C02", "labels", S), "R2-C02-2": ("C02", "empty_query_shapes", S),
+    "R2-C01-1": ("C01", "convert", S), "R2-C01-2": ("C08", "merged_parameters", S), "R2-C02-1": ("C02", "labels", S), "R2-C02-2": ("C02", "empty_query_shapes", S),
     "R2-C03-1": ("C03", "negative_type", S), "R2-C03-2": ("C03", "template_components", S), "R2-C04-1": ("C04", None, O), "R2-C04-2": ("C04", "nullable_twice", S),
     "R2-C05-1": ("C05", "failure_identity", S), "R2-C05-2": ("C05", "failure_data_source", I), "R2-C06-1": ("C06", "path_value_on_wire", S), "R2-C06-2": ("C06", "query_values_on_wire", S),
     "R2-C07-1": ("C07", "resolved_filters", S), "R2-C07-2": ("C07", "resolved_filters", S), "R2-C08-1": ("C08", "lookup_agreement", I), "R2-C08-2": ("C08", "yaml_keys", S),
